@@ -93,11 +93,14 @@ Fixpoint walk (probes : list (nat * str)) (ops : list op) (obs : list step_obs)
 Definition check (c : case) : verdict :=
   let ops := c_ops c in
   let '(ct, cm, pr) := walk (c_probes c) ops (c_obs c) t_empty_repo empty [] [] in
-  let structural := guard_F3 ops || guard_F5 ops in
+  (* where the abstract index is not claimed to behave like the code: node
+     compression (C06-F3) and stale key names (C06-F5), unless repaired *)
+  let structural := (negb (fix_F3 fx) && guard_F3 ops) || (negb (fix_F5 fx) && guard_F5 ops) in
   {| v_corr := ct && (structural || cm);
      v_prop := negb (wf_history ops) || pr;
-     v_guards := guards [(1%Z, guard_F1 ops); (2%Z, guard_F2 ops); (3%Z, guard_F3 ops);
-                         (4%Z, guard_F4 ops); (5%Z, guard_F5 ops); (6%Z, guard_dupid ops)] |}.
+     v_guards := guards [(1%Z, guard_F1 ops); (2%Z, guard_F2 ops); (3%Z, negb (fix_F3 fx) && guard_F3 ops);
+                         (4%Z, negb (fix_F4 fx) && guard_F4 ops); (5%Z, negb (fix_F5 fx) && guard_F5 ops);
+                         (6%Z, guard_dupid ops)] |}.
 
 End Eval.
 
